@@ -97,7 +97,7 @@ impl Check for C17 {
         ]
     }
     fn probes(&self) -> Vec<&'static str> {
-        vec!["verdict.silent_dropped", "verdict.responsive_kept", "cfg.pong_ge_ping", "pattern.stall_then_heal", "pattern.late", "residue_probe_ok"]
+        vec!["verdict.silent_dropped", "verdict.responsive_kept", "cfg.pong_ge_ping", "pattern.stall_then_heal", "pattern.late", "residue_probe_ok", "slowreg.registered_late"]
     }
 
     fn gen(&self, run_seed: u64, idx: u64, _tier: Tier) -> Trace {
@@ -146,12 +146,23 @@ impl Check for C17 {
         // other traffic right after registration: a capability request that is never ended, a NICK change, an AWAY
         let extras: Vec<String> = pats.iter().map(|_| ["", "", "", "CAP REQ :multi-prefix", "CAP LS 302", "NICK renamed", "AWAY :afk", "JOIN #k"][r.below(8)].to_string()).collect();
         params.insert("extras".to_string(), extras.join(";"));
+        // a third of the runs: one more connection completes its registration only after one to two and a half
+        // ping periods (NICK at once, USER late) and answers whatever PING it is sent meanwhile
+        if r.below(3) == 0 {
+            let d = ping_ms + (r.below(((3 * ping_ms / 2) / tick) as usize + 1) as u64) * tick;
+            params.insert("slowreg".to_string(), format!("{}:{}", d, r.below(2)));
+        }
         Trace { check: "C17".into(), seed: 0, run_seed, config: cfg, params, actions: vec![] }
     }
 
     fn simplify(&self, t: &Trace) -> Vec<Trace> {
         // fewer subjects, fewer periods
         let mut out = vec![];
+        if t.params.contains_key("slowreg") {
+            let mut t2 = t.clone();
+            t2.params.remove("slowreg");
+            out.push(t2);
+        }
         let pats: Vec<String> = t.params.get("patterns").map(|s| s.split(';').map(|x| x.to_string()).collect()).unwrap_or_default();
         if pats.len() > 1 {
             for i in 0..pats.len() {
@@ -269,6 +280,21 @@ async fn exec_inner(t: Trace) -> Outcome {
             pongs_sent: vec![],
         });
     }
+    // slow registration (see gen): first half now, second half `slow_delay` ms after t0
+    let slow_par: Option<(u64, u64)> = t.params.get("slowreg").and_then(|s| {
+        let v: Vec<&str> = s.split(':').collect();
+        Some((v.first()?.parse().ok()?, v.get(1).and_then(|x| x.parse().ok()).unwrap_or(0)))
+    });
+    let mut slow_conn: Option<usize> = None;
+    let mut slow_completed = false;
+    let mut slow_registered_at: Option<u64> = None;
+    if let Some((_, order)) = slow_par {
+        let c = w.open("10.0.0.9", false);
+        let first = if order == 0 { "NICK slowr".to_string() } else { "USER slowr 0 * :Slow".to_string() };
+        w.apply(&Action::line(c, &first)).await;
+        slow_conn = Some(c);
+        out.count("slowreg.opened", 1);
+    }
     w.settle().await;
     let _ = w.observe();
     let extras: Vec<String> = t.params.get("extras").map(|s| s.split(';').map(|x| x.to_string()).collect()).unwrap_or_default();
@@ -365,6 +391,39 @@ async fn exec_inner(t: Trace) -> Outcome {
             w.apply(&Action::Send { c: wit, d: esc(b"PO") }).await;
             wit_frag_pending = true;
             out.count("witness_fragment_pending", 1);
+        }
+        // the slowly registering connection: answers every PING at once, must never be dropped
+        if let (Some(c), Some((delay, order))) = (slow_conn, slow_par) {
+            let mut dead = obs[c].eof;
+            for l in &obs[c].lines {
+                if let Some(p) = irc::parse(l) {
+                    if p.cmd == "PING" {
+                        let tok = p.params.last().cloned().unwrap_or_default();
+                        w.apply(&Action::line(c, &format!("PONG :{}", tok))).await;
+                        out.count(if slow_registered_at.is_some() { "slowreg.ping_after_registration" } else { "slowreg.ping_before_registration" }, 1);
+                    } else if p.cmd.starts_with("ERROR") {
+                        dead = true;
+                    } else if p.cmd == "001" {
+                        slow_registered_at = Some(now);
+                        out.count("slowreg.registered_late", 1);
+                    }
+                }
+            }
+            if dead {
+                viol = Some(mk(
+                    "responsive_client_dropped",
+                    format!(
+                        "the connection that completed (or was about to complete) its registration {} ms after the others and answered every PING it was sent was disconnected at t={}ms (ping {}s pong {}s, registration completed: {}, welcome at {:?})",
+                        delay, now, ping, pong, slow_completed, slow_registered_at
+                    ),
+                ));
+                break;
+            }
+            if !slow_completed && now >= t0 + delay {
+                let second = if order == 0 { "USER slowr 0 * :Slow".to_string() } else { "NICK slowr".to_string() };
+                w.apply(&Action::line(c, &second)).await;
+                slow_completed = true;
+            }
         }
         // subjects
         for s in subs.iter_mut() {
